@@ -43,6 +43,9 @@ type vnode struct {
 	base     string
 	password string
 	fast     bool
+	// gate lets a harness stop the node from taking writes for a moment (held shared by
+	// every request that is not a long-lived GET)
+	gate sync.RWMutex
 }
 
 const verifPassword = "verif-network-password"
@@ -128,7 +131,13 @@ func startNode(dir string, fast bool) (*vnode, error) {
 	if err != nil {
 		return nil, err
 	}
-	n.srv = &http.Server{Handler: mux}
+	n.srv = &http.Server{Handler: http.HandlerFunc(func(w http.ResponseWriter, r *http.Request) {
+		if r.Method != "GET" {
+			n.gate.RLock()
+			defer n.gate.RUnlock()
+		}
+		mux.ServeHTTP(w, r)
+	})}
 	go n.srv.Serve(n.ln)
 	n.base = "http://" + n.ln.Addr().String()
 	deadline := time.Now().Add(30 * time.Second)
